@@ -143,6 +143,11 @@ def integrateGLrule (f : Rat → Rat) (rw : List (Rat × Rat)) : Except Err Rat 
 def integrateGL (f : Rat → Rat) (a b : Rat) (n : Nat) (z pp : Nat → Rat) : Except Err Rat :=
   integrateGLrule f (glAssemble n a b z pp)
 
+/-- a sequence of calls of the integrating overload in one process (root values per order `z n`, `pp n`):
+    every answer is that of its own arguments `(n, a, b)` -/
+def integSeq (f : Rat → Rat) (z pp : Nat → Nat → Rat) (reqs : List (Nat × Rat × Rat)) : List (Except Err Rat) :=
+  reqs.map (fun r => integrateGL f r.2.1 r.2.2 r.1 (z r.1) (pp r.1))
+
 /-- the quadrature sum `Σ_{k<n} f(x_k) w_k` written directly -/
 def glSum (f : Rat → Rat) (n : Nat) (xmin xmax : Rat) (z pp : Nat → Rat) : Rat :=
   (List.range n).foldl (fun acc k => acc + f (node n xmin xmax z pp k) * weight n xmin xmax z pp k) 0
